@@ -570,7 +570,8 @@ pub fn drive<S: Send + 'static>(
         return drive_shard(path, (0, 1), 1, mk, run);
     }
     let limit = harness_limit();
-    let part = |i: usize| format!("{path}.part{i}.json");
+    let me = std::process::id();
+    let part = move |i: usize| format!("{path}.{me}.part{i}.json");
     let mut pids: Vec<libc::pid_t> = Vec::new();
     for i in 0..procs {
         // no threads exist yet in this process: fork is safe
@@ -582,6 +583,8 @@ pub fn drive<S: Send + 'static>(
             tool_error("fork failed");
         }
         if pid == 0 {
+            // a shard never outlives the harness process
+            unsafe { libc::prctl(libc::PR_SET_PDEATHSIG, libc::SIGKILL as libc::c_ulong) };
             let rep = drive_shard(path, (i, procs), 1, mk, run);
             rep.write(&part(i));
             std::process::exit(0);
